@@ -302,32 +302,45 @@ func c19(c *core.Ctx, r *core.Report) {
 					r.Hold("C19.R2", cons, c.Pos(ci.Pos()), "argument is guarded non-empty in the caller")
 					continue
 				}
-				// a parameter filled with non-empty constants by every in-scope caller
-				p, isP := core.Norm(arg).(*ssa.Parameter)
-				okAll, cnt := isP, 0
-				if isP {
+				// a parameter filled with non-empty constants (or guarded values) by every in-scope caller, through
+				// however many forwarding helpers
+				cnt := 0
+				var argOK func(f *ssa.Function, at ssa.CallInstruction, v ssa.Value, depth int) bool
+				argOK = func(f *ssa.Function, at ssa.CallInstruction, v ssa.Value, depth int) bool {
+					if s, isK := core.ConstString(v); isK {
+						return s != ""
+					}
+					if nonEmptyGuard(v, at.Block(), 1) {
+						return true
+					}
+					p, isP := core.Norm(v).(*ssa.Parameter)
+					if !isP || depth > 3 || len(c.FuncValueUses(f)) != 0 {
+						return false
+					}
 					pi := -1
-					for i, q := range fn.Params {
+					for i, q := range f.Params {
 						if q == p {
 							pi = i
 						}
 					}
-					for _, cs := range c.CallSites(func(com *ssa.CallCommon) bool { return core.IsCallTo(com, fn) }) {
+					sites := c.CallSites(func(com *ssa.CallCommon) bool { return core.IsCallTo(com, f) })
+					if pi < 0 || len(sites) == 0 {
+						return false
+					}
+					for _, cs := range sites {
 						cnt++
 						a := cs.Common().Args
-						if pi < 0 || pi >= len(a) {
-							okAll = false
-							continue
-						}
-						if s, isK := core.ConstString(a[pi]); !isK || s == "" {
-							okAll = false
+						if pi >= len(a) || !argOK(cs.Parent(), cs, a[pi], depth+1) {
+							return false
 						}
 					}
+					return true
 				}
-				r.Check(okAll, "C19.R2", cons, c.Pos(ci.Pos()), fmt.Sprintf("argument is the caller's parameter and all %d in-scope call sites pass a non-empty constant (tag text never reaches it unguarded)", cnt))
+				okAll := argOK(fn, ci, arg, 0)
+				r.Check(okAll, "C19.R2", cons, c.Pos(ci.Pos()), fmt.Sprintf("argument is the caller's parameter and all %d in-scope call sites (through forwarding helpers) pass a non-empty constant or a guarded value (tag text never reaches it unguarded)", cnt))
 			}
 		}
-		r.Floor("C19.R2", "formatArgType call sites", n, 4)
+		r.Floor("C19.R2", "formatArgType call sites", n, 1)
 	}
 
 	// ---- R3 / R4: the grammar itself, decided on concrete tag texts (parser, lookups, required test, prop shorthand)
